@@ -290,6 +290,9 @@ def run(repo, rep, tier):  # noqa: F811 -- round-5 shape rules appended to the r
     if getattr(rep, "borrowed", False):
         return
     from ..core import round5 as _r5
+    from ..core.report import Only as _O5
+    from . import c16 as _c16b
+    _c16b.run(repo, _O5(rep, {"R16.1"}), tier)
     _r5.annotation_scans(repo, rep, "R09.8")
     rep.floor("R09.8", 20)
     _r5.metadatas_contract(repo, rep, "R09.9")
@@ -298,3 +301,6 @@ def run(repo, rep, tier):  # noqa: F811 -- round-5 shape rules appended to the r
 _ADDR5B = ' Borrowed: R09.8: isinstance tests for the Annotated markers (Alias, Discriminator, JSON Schema constraints) are applied to the variable of a scan over the whole metadata sequence, so a marker is honoured at any position. R09.9 (CodeBuilder.metadatas is exactly {name: Field.metadata}).'
 EXPLANATION += _ADDR5B
 LEVEL_TEXT += _ADDR5B
+_ADDR5D = ' Borrowed: R16.1 (aliases are spliced into the key-assignment lines through repr, so the emitted key is the alias verbatim).'
+EXPLANATION += _ADDR5D
+LEVEL_TEXT += _ADDR5D
